@@ -106,7 +106,23 @@ def m_segobj(m):
 
 
 def qual_match(m, seg_id, qual):
-    return m.x.is_match_qual(m_segobj(m), seg_id, qual)[0]
+    """Does mirror segment m answer to SEG[qual]?  Written from the documented rule (segment id, and - when a qualifier is
+    given - the value of the node's qualifier element must be that code and the code must be one the node lists);
+    deliberately not a call of map_if.is_match_qual, so that a change there shows up as a disagreement."""
+    if m.id != seg_id:
+        return False
+    if qual is None:
+        return True
+    c = m.x.children
+    if c[0].is_element() and c[0].data_type == 'ID' and c[0].usage == 'R' and len(c[0].valid_codes) > 0:
+        return qual in c[0].valid_codes and m_value(m, '01') == qual
+    if seg_id == 'ENT' and len(c) > 1 and c[1].is_element() and c[1].data_type == 'ID' and len(c[1].valid_codes) > 0:
+        return qual in c[1].valid_codes and m_value(m, '02') == qual
+    if c[0].is_composite() and c[0].children[0].data_type == 'ID' and len(c[0].children[0].valid_codes) > 0:
+        return qual in c[0].children[0].valid_codes and m_value(m, '01-1') == qual
+    if seg_id == 'HL' and len(c) > 2 and c[2].is_element() and len(c[2].valid_codes) > 0:
+        return qual in c[2].valid_codes and m_value(m, '03') == qual
+    return True
 
 
 def m_select(m, loops, seg_id, qual):
@@ -510,6 +526,11 @@ def make_machine(text, fname, loop_id, which, gen_seed):
                         qual = None
                     if not qual or not qual.isalnum():
                         qual = None
+                    elif usequal == 2 and len(qe.valid_codes) > 1:
+                        # a code the node lists but this segment does not carry: must select nothing here
+                        others = [c for c in qe.valid_codes if c != qual and c.isalnum()]
+                        if others:
+                            qual = others[i % len(others)]
             n = max(1, len(m.elems))
             ei = j % (n + 2) + 1
             ref = '%02d' % ei
@@ -531,7 +552,7 @@ def make_machine(text, fname, loop_id, which, gen_seed):
             if p is not None:
                 self.sut.apply(dict(op='get', t=t, **p))
 
-        @rule(i=st.integers(0, 10 ** 6), t=st.integers(0, 1), q=st.booleans(), loopq=st.booleans(), miss=st.integers(0, 5))
+        @rule(i=st.integers(0, 10 ** 6), t=st.integers(0, 1), q=st.sampled_from([0, 1, 1, 2]), loopq=st.booleans(), miss=st.integers(0, 5))
         def query(self, i, t, q, loopq, miss):
             if loopq:
                 ls = self._all(t, 'loop')
@@ -548,6 +569,34 @@ def make_machine(text, fname, loop_id, which, gen_seed):
                 op['seg'] = 'ZZZ'
             elif miss == 1 and op['loops']:
                 op['loops'] = op['loops'][:-1] + ['9999']
+            self.sut.apply(op)
+
+        @rule(i=st.integers(0, 10 ** 6), t=st.integers(0, 1), j=st.integers(0, 10 ** 6), q=st.sampled_from([0, 1, 2]), what=st.sampled_from(['query', 'query', 'delete_node', 'get']))
+        def via_parent(self, i, t, j, q, what):
+            """query / delete / read made on a child loop with a path that climbs back with ../ to a sibling"""
+            root = self.sut.model[t % len(self.sut.model)]
+            ls = [x for x in self._all(t, 'loop') if _is_first_path(root, x)]
+            if not ls:
+                return
+            m, loops = ls[i % len(ls)]
+            sibs = m.parent.children
+            target = sibs[j % len(sibs)]
+            if target.kind == 'loop':
+                op = dict(op='query' if what == 'get' else what, t=t, start=loops, up=1, loops=[target.id], seg=None)
+                if op['op'] == 'delete_node' and target is m:
+                    return
+            else:
+                if sibs[0] is target and what == 'delete_node':
+                    return
+                p = None
+                segs = self._all(t, 'seg')
+                for n, (sm, sl) in enumerate(segs):
+                    if sm is target:
+                        p = self._segpath(n, t, 0, q, 0)
+                        break
+                if p is None:
+                    return
+                op = dict(op=what, t=t, start=loops, up=1, loops=[], seg=p['seg'], qual=p['qual'], ref=p['ref'])
             self.sut.apply(op)
 
         @rule(i=st.integers(0, 10 ** 6), t=st.integers(0, 1), up=st.integers(0, 1), v=vals)
